@@ -603,3 +603,52 @@ MANIFEST_TEXT["C17"] = {
                   "the pinned tree are listed as open findings by (feature of the matched rule, kind of wrong behaviour).",
     "level_note": "Trusts the reference implementation and the process sandbox. Hygiene is outside the generated grammar.",
 }
+
+
+# ---- amendments to the exploration rules made after the seeded-change trials (DESIGN.md section 11) ----
+def _amend(prop, old, new):
+    r = CHECKS[prop]["rule"]
+    assert old in r, (prop, old)
+    CHECKS[prop]["rule"] = r.replace(old, new, 1)
+
+
+_amend("C05", "escape from depth d of non-tail recursion; ",
+       "escape from depth d of non-tail recursion; a continuation captured under 0..200 pending frames (clustered around the 256-slot initial "
+       "stack size), stored and re-entered from later top-level forms, directly and from inside an operand; ")
+_amend("C07", "failure kind (index mod 6: unbound variable, wrong type, wrong arity, user error, non-procedure call, bad syntax) x failure shape ((index/6) mod 6:",
+       "failure kind (index mod 7: unbound variable, wrong type, wrong arity, user error, non-procedure call, bad syntax, a mutating primitive "
+       "rejecting its arguments (vector-copy! / vector-fill! / vector-set! / string-fill! / string-set! / set-car! with ranges that are invalid only "
+       "late), which must leave its target untouched) x failure shape ((index/7) mod 6:")
+_amend("C07", "x consecutive failures ((index/36) mod 4: 1, 2, 10, 3)", "x consecutive failures ((index/42) mod 4: 1, 2, 10, 3)")
+_amend("C07", "the twin VM gets the effects only (nothing at all for errors detected before execution). ",
+       "the twin VM gets the effects only (nothing at all for errors detected before execution); one failing form in three also defines a keyword "
+       "(define-syntax) before it fails. Directly after the failures a form the compiler rejects or a text the reader rejects is submitted and its "
+       "failure and (absent) stack trace compared; a continuation captured under 0..180 pending frames before the failures is re-entered after them. ")
+_amend("C12", "part 2: six programs under schedules",
+       "part 1b: 'rolling' loops whose only live datum is the object made by the previous iteration, passed on as a loop argument (pair, vector, "
+       "closure over the loop variable, closure over a fresh binding, continuation), 200 against 2000 iterations, comparing the cells the one "
+       "survivor keeps allocated. part 2: six programs under schedules")
+_amend("C14", "(proper lists, improper lists, lists sharing tails,",
+       "(proper lists, improper lists whose tail is a scalar, a string, a fresh vector or a vector of the pool, lists sharing tails,")
+_amend("C14", "vector-copy (with start) vector-copy! equal? eq?,",
+       "vector-copy (with start) vector-copy! (also from the target itself, with overlapping ranges in both directions) equal? (against every other "
+       "object and against a structural copy made with car/cdr/cons) eq?,")
+_amend("C15", "string=? <? >? <=? >=? string-ci*", "string=? <? >? <=? >=? (2-4 arguments) string-ci*")
+_amend("C15", "char comparisons and predicates; start/end/index",
+       "char comparisons (2-4 arguments) and predicates, and rebinding a pool variable to a string that must be newly allocated (string-append of one "
+       "argument, string-copy, substring, list->string) so that later mutations expose shared storage; start/end/index")
+_amend("C17", "patterns nested <= 3 with literals, _, numeric data, a custom ellipsis identifier (1 in 6),",
+       "patterns nested <= 3 with literals, _, constant data (numbers, strings, characters, booleans), a custom ellipsis identifier (1 in 6; then ... "
+       "may be an ordinary pattern variable),")
+_amend("C17", "(under one ellipsis, twice under one ellipsis,", "(under one ellipsis, two different variables under one ellipsis, twice under one ellipsis,")
+_amend("C17", "Uses are generated from each rule's pattern (0-3 repetitions per ellipsis)",
+       "Uses are generated from each rule's pattern (0-3 repetitions per ellipsis; at the position of a constant one time in four a look-alike of "
+       "another type or exactness: the symbol a for \"a\" or #\\a, 1.0 for 1)")
+_amend("C18", "(literal-based routes only when the spelling marwood itself writes for the symbol reads back as that symbol)",
+       "(literal-based routes use the name itself whenever the reader takes that text for one identifier, which is independent of string->symbol; "
+       "otherwise the spelling marwood writes for the symbol, if it reads back as that symbol)")
+_amend("C18", "all with the heap auditor (symbol-table bijection) after each collection", "all with the heap auditor (symbol-table bijection) after each collection, scheduled or forced")
+_amend("C19", "{read, quote-evaluate, build at run time, keep live across two forced collections, equal?, write, drop, call, evaluate, error-at-depth, capture-continuation, lambda-body}",
+       "{read, quote-evaluate, build at run time, keep live across two forced collections, equal?, write, drop, call, evaluate, error-at-depth, "
+       "capture-continuation, lambda-body; for flat lists also append, reverse, length/list?, list->vector/vector->list, map/for-each, apply, "
+       "memq/member/memv, list-tail/list-ref}")
